@@ -137,6 +137,7 @@ class World:
         self.sim_faults = []       # armed SimLoader / dict faults: [{"kind":..}]
         self.uptodate_faults = 0   # armed: the next uptodate() of a custom-loader template raises
         self.fault_seqs = []       # seqs at which a fault was armed or fired
+        self.fall_through_ok = False   # an injected fault made a delegate LOOK as if it had not got the name
         self.dict_realm = CountingDict(self)
 
     def realm_of(self, name):
@@ -148,6 +149,8 @@ class World:
         f = self.sim_faults.pop(0)
         self.fault_seqs.append(self.loop.seq)
         bump(self.stats, "fault.store_" + f["kind"])
+        if f["kind"] == "notfound":
+            self.fall_through_ok = True
         return f
 
 
@@ -747,10 +750,12 @@ class C23:
             # comes first: counted, not reported; a miss or reload must honour the order)
             for c in cands[:cands.index(ident)]:
                 if not w.store.dead_sometime(c, lo_hist if not missed else inv, ret):
-                    if sc["config"] == "fault":
-                        # an injected error in a delegate legitimately falls through to the next
-                        # one, and the entry cached from it keeps being served: priority is only
-                        # judged in the fault-free configuration
+                    if sc["config"] == "fault" and w.fall_through_ok:
+                        # an injected "not found" in a delegate (ENOENT while resolving, a store
+                        # answering not-found) legitimately falls through to the next one, and the
+                        # entry cached from it keeps being served.  Any OTHER injected error (EIO,
+                        # EACCES, an OSError from the store) fails the request and must leave
+                        # nothing behind, so priority is judged as in the fault-free configuration
                         bump(st, "relaxed.fault_fell_through_to_lower_delegate")
                         return
                     add("priority", "priority:lower-delegate:%s:%s" % (mode, "miss" if missed else "cached"),
@@ -905,6 +910,8 @@ class C23:
                 if f[0] != "action":
                     bump(st, "fault.fs_errno")
                     w.fault_seqs.append(ret)
+                    if f[0] == "ENOENT" and f[2] != "open":
+                        w.fall_through_ok = True   # "no such file" while resolving: the next delegate answers
             loads = w.loads + w.plan.by_kind.get("open", 0) - loads0
             keys1 = [k for k, _ in cache.items()]
             ck = cache_key_of(op)
